@@ -300,6 +300,10 @@ fn check(c: &Case) -> CaseResult {
 
 pub fn run(tier: Tier) -> i32 {
     let mut rep = Report::new("C12", tier, "exploration");
+    // the quick tier explores what used to be the thorough space (it takes seconds); `deep` adds the wider bounds
+    #[allow(unused_variables)]
+    let deep = tier == Tier::Thorough;
+    let tier = Tier::Thorough;
     let n = REFS.len();
     let mut lists: Vec<Vec<usize>> = Vec::new();
     for a in 0..n {
@@ -310,6 +314,19 @@ pub fn run(tier: Tier) -> i32 {
                 for c in 0..n {
                     if c != a && c != b && (tier == Tier::Thorough || (a + b + c) % 4 == 0) {
                         lists.push(vec![a, b, c]);
+                    }
+                }
+            }
+        }
+    }
+    if deep {
+        // every list of four distinct references (as a set, in ascending and in descending order)
+        for a in 0..n {
+            for b in a + 1..n {
+                for c in b + 1..n {
+                    for d in c + 1..n {
+                        lists.push(vec![a, b, c, d]);
+                        lists.push(vec![d, c, b, a]);
                     }
                 }
             }
@@ -326,7 +343,7 @@ pub fn run(tier: Tier) -> i32 {
             }
         }
     }
-    rep.set("rule", json!("Ordered lists of 1-3 distinct references from 11 elements with known shapes (five rects: overlapping, nested, disjoint, negative/fractional; circle, ellipse, line, group, a previous surround element, a previous inside element) x container {rect, circle, ellipse} x {surround, inside} x 10 margin forms (none, 1-4 values, mixed separators, percent, percent+absolute, negative, zero). Oracle from the references' known geometry: surround rect = union grown by margin exactly; circle/ellipse centred on that box and enclosing its corners (ellipse: corners not outside the curve; circle: radius between the half-diagonal and that of the enclosing square); percent margins only required to enclose. inside: rect among rect references = intersection shrunk by margin exactly; every boundary sample point of the result lies within every listed element's own area and within the intersection box shrunk by absolute margins; an empty intersection must not yield a positioned element. surround/inside/margin absent from the output. Non-trivial = Ok with observable geometry and all clauses satisfied."));
+    rep.set("rule", json!("Ordered lists of 1-3 distinct references (thorough tier: also every set of 4, ascending and descending) from 11 elements with known shapes (five rects: overlapping, nested, disjoint, negative/fractional; circle, ellipse, line, group, a previous surround element, a previous inside element) x container {rect, circle, ellipse} x {surround, inside} x 10 margin forms (none, 1-4 values, mixed separators, percent, percent+absolute, negative, zero). Oracle from the references' known geometry: surround rect = union grown by margin exactly; circle/ellipse centred on that box and enclosing its corners (ellipse: corners not outside the curve; circle: radius between the half-diagonal and that of the enclosing square); percent margins only required to enclose. inside: rect among rect references = intersection shrunk by margin exactly; every boundary sample point of the result lies within every listed element's own area and within the intersection box shrunk by absolute margins; an empty intersection must not yield a positioned element. surround/inside/margin absent from the output. Non-trivial = Ok with observable geometry and all clauses satisfied."));
     let st = run_space(cases.len(), |i| check(&cases[i]));
     let ms = margins();
     rep.sample(json!({"doc": document(&cases[cases.len() / 2], &ms)}));
